@@ -259,6 +259,8 @@ func ruleLockBalanced(only func(lm *LockModel, cls int) bool) func(*Ctx) {
 				switch {
 				case fl.adds.has(i):
 					c.S.Trivial("lock-balanced", key, c.Pos(fn.Pos()), "acquire wrapper: returns holding the lock on every path")
+				case fl.mayExit.has(i) && lm.leakInherited(c.Prog, fn, i):
+					c.S.Trivial("lock-balanced", key, c.Pos(fn.Pos()), "returns holding the lock only because a callee does (reported at the callee)")
 				case fl.mayExit.has(i):
 					pos := fn.Pos()
 					if r := fl.leakAt[i]; r != nil {
@@ -271,4 +273,23 @@ func ruleLockBalanced(only func(lm *LockModel, cls int) bool) func(*Ctx) {
 			}
 		}
 	}
+}
+
+// leakInherited: some callee of fn may itself return holding class i without being an acquire wrapper.
+func (lm *LockModel) leakInherited(p *Prog, fn *ssa.Function, i int) bool {
+	for _, in := range instrsOf(fn) {
+		c, ok := in.(ssa.CallInstruction)
+		if !ok {
+			continue
+		}
+		if _, isGo := in.(*ssa.Go); isGo {
+			continue
+		}
+		for _, g := range p.Callees(c) {
+			if fl := lm.fl[g]; fl != nil && g != fn && fl.mayExit.has(i) && !fl.adds.has(i) {
+				return true
+			}
+		}
+	}
+	return false
 }
